@@ -58,11 +58,24 @@ Definition dispatcher_site_ok (w : wsite) : bool :=
     pair_mem (ws_path w, ws_kind w) shared_ok || pair_mem (ws_path w, ws_kind w) registry_ok
   else String.eqb b "local".        (* locals of ONE dispatcher invocation; their wiring is checked below *)
 
-Definition sites_ok : bool :=
-  forallb (fun w =>
-    if mem_s (ws_fn w) lifecycle then true
-    else if String.eqb (ws_fn w) "dispatcher" then dispatcher_site_ok w
-    else site_ok w) iso_sites.
+Definition site_check (w : wsite) : bool :=
+  if mem_s (ws_fn w) lifecycle then true
+  else if String.eqb (ws_fn w) "dispatcher" then dispatcher_site_ok w
+  else site_ok w.
+
+Definition sites_ok : bool := forallb site_check iso_sites.
+
+(* the write sites that break the rule (Props states this list is empty: a failure NAMES the site) *)
+Definition offending_sites : list wsite := filter (fun w => negb (site_check w)) iso_sites.
+
+Lemma offending_sites_nil_iff : offending_sites = [] <-> sites_ok = true.
+Proof.
+  unfold offending_sites, sites_ok. induction iso_sites as [|w l IH]; cbn [filter forallb].
+  - split; reflexivity.
+  - destruct (site_check w); cbn [negb andb].
+    + exact IH.
+    + split; intro H; discriminate H.
+Qed.
 
 (* the name `connection` always denotes the Connection of the session the code runs for: bound only by
    the dispatcher (once, to Connection(...)) and by the server-wide close(); no global / nonlocal
